@@ -58,7 +58,8 @@ def run(cx):
     cx.rule("C16.R3", "only async-signal-safe calls between fork and exec: the pre_exec closure calls nothing but an allow-listed set of libc functions")
     cx.rule("C16.R4", "a raw descriptor has one owner: a value from into_raw_fd feeds at most one from_raw_fd, and a borrowed as_raw_fd value feeds none (table of reviewed exceptions)")
     cx.rule("C16.R5", "connection constructors agree: with_* fill reader/writer from split() of the stream they store, *_no_rw leave both empty; child/tempdir are set exactly by the spawning constructors")
-    r1(cx); r2(cx); r3(cx); r4(cx); r5(cx); r5_split(cx)
+    cx.rule("C16.R6", "an inherited and a self-bound listening socket are accepted from alike: listen() puts the listener into blocking mode (set_nonblocking(false)) before its first accept() — accept(0) calls accept(2) without select(), which fails with EAGAIN on a socket the activator left non-blocking")
+    r1(cx); r2(cx); r3(cx); r4(cx); r5(cx); r5_split(cx); r6(cx)
 
 
 def r1(cx):
@@ -333,3 +334,20 @@ def r5_split(cx):
                 if len(tc) != 1 or not any(k == "arg" and v == 1 for k, v in Slice(body, du).origins(tc[0].args[0])): why.append("the %s half is not try_clone() of this stream" % nm)
         cx.check(not why, "C16.R5", "varlink:%s:both-halves-same-socket" % body.path, body.sp, "; ".join(why), note_ok="(try_clone(self), try_clone(self))")
     cx.floor("C16.R5", "Stream::split implementations", n, 2)
+
+
+def r6(cx):
+    from vlib.cfg import ref_base
+    ls = cx.mir.one("varlink", "server::listen")
+    cx.saw(ls)
+    cfg = Cfg(ls); du = DefUse(ls)
+    acc = [t for t in ls.calls("=accept") if "Listener" in t.callee.path]
+    if not acc: raise AnchorMissing("listen: accept")
+    root = lambda t: ref_base(du, t.args[0].place.l)[0] if t.args and t.args[0].place is not None else None
+    snb = [t for t in ls.calls("=set_nonblocking") if "Listener" in t.callee.path and root(t) == root(acc[0])]
+    blocking = [t for t in snb if len(t.args) > 1 and t.args[1].is_const and t.args[1].cint() == 0]
+    nonblocking = [t for t in snb if t not in blocking]
+    good = bool(blocking) and all(any(cfg.dominates(b.bb, a.bb) for b in blocking) for a in acc) and not any(a.bb in cfg.reach(n.target) for n in nonblocking for a in acc if n.target is not None and not any(b.bb in cfg.reach(n.target) and a.bb in cfg.reach(b.target) for b in blocking))
+    cx.check(good, "C16.R6", "varlink:listen:listener-made-blocking", "%s %s" % (acc[0].sp, ls.path),
+             "accept() is reached without listener.set_nonblocking(false): a listening socket inherited in non-blocking mode makes accept(0) fail with EAGAIN, so an activated service behaves differently from one that bound the address itself",
+             note_ok="set_nonblocking(false) dominates accept()")
